@@ -158,3 +158,34 @@ func HarnessC10_Rates() {
 		vReach("rates-opus")
 	}
 }
+
+// HarnessC10_Stateless: decoding depends only on the tag body: two bodies decoded one after
+// the other by the same packager give the frames that fresh packagers give.
+func HarnessC10_Stateless() {
+	b1 := vBytes(2 + vChoice(3))
+	b2 := vBytes(2 + vChoice(3))
+	shared, _ := NewAudioPackager()
+	f1, e1 := shared.Decode(b1)
+	f2, e2 := shared.Decode(b2)
+	fresh, _ := NewAudioPackager()
+	g2, e3 := fresh.Decode(b2)
+	_, _ = f1, e1
+	vAssert((e2 == nil) == (e3 == nil), "audio Decode accepts a body independently of earlier bodies")
+	if e2 == nil && e3 == nil {
+		same := vAnd(f2.SoundFormat == g2.SoundFormat, vAnd(f2.SoundRate == g2.SoundRate, vAnd(f2.SoundSize == g2.SoundSize, f2.SoundType == g2.SoundType)))
+		same = vAnd(same, vAnd(f2.Trait == g2.Trait, f2.AudioLevel == g2.AudioLevel))
+		vAssert(same, "audio Decode yields the same frame whatever was decoded before")
+		vAssert(len(f2.Raw) == len(g2.Raw), "audio raw independent of earlier bodies")
+	}
+	vs, _ := NewVideoPackager()
+	v1, _ := vs.Decode(b1)
+	v2, ve2 := vs.Decode(b2)
+	vf, _ := NewVideoPackager()
+	w2, ve3 := vf.Decode(b2)
+	_ = v1
+	vAssert((ve2 == nil) == (ve3 == nil), "video Decode accepts a body independently of earlier bodies")
+	if ve2 == nil && ve3 == nil {
+		vAssert(vAnd(v2.CodecID == w2.CodecID, vAnd(v2.FrameType == w2.FrameType, vAnd(v2.Trait == w2.Trait, v2.CTS == w2.CTS))), "video Decode yields the same frame whatever was decoded before")
+	}
+	vReach("stateless")
+}
